@@ -995,6 +995,11 @@ def _struct_case(res, ckind, layout, depth, seed):
       except dataclasses.FrozenInstanceError:
         core.outcome(res, 'frozen:setattr:FrozenInstanceError')
       except Exception as e:  # noqa
+        if ckind == 'dcs' and nm == 'brand_new' and isinstance(e, (TypeError, AttributeError)):
+          # CPython: a frozen dataclass with __slots__ rejects an unknown attribute with
+          # TypeError / AttributeError before reaching FrozenInstanceError; still refused
+          core.outcome(res, 'frozen:setattr:slots-' + type(e).__name__)
+          continue
         V('frozen-class', f'assignment to {nm} raised {type(e).__name__}, not '
           'FrozenInstanceError', hist)
       else:
